@@ -693,6 +693,27 @@ Proof.
   exact (dispatch_executes (y_srv y) (p_id p) m a newid o t Hg He Ha Hm).
 Qed.
 
+(* the same, for every method the proxy class offers *)
+Theorem proxy_call_refines_local_offered y k p m a newid :
+  sysinv y -> nth_error (y_proxies y) k = Some p ->
+  exists o t,
+    dget (objs (y_srv y)) (p_id p) = Some (SlotE o t) /\
+    (offered t m = true -> has_attr t m = true -> m2t_of t m = None ->
+     let r := apply_local o t m a in
+     let d := dispatch (y_srv y) (p_id p) m a newid in
+     fst d = reply_of_local r /\
+     dget (objs (snd d)) (p_id p) = Some (SlotE (obj_of_local o r) t) /\
+     (forall id', id' <> p_id p -> dget (objs (snd d)) id' = dget (objs (y_srv y)) id') /\
+     rcs (snd d) = rcs (y_srv y)).
+Proof.
+  intros Hy En. destruct (proxy_live y k p Hy En) as (_ & o & t & Hg).
+  exists o, t. split; [exact Hg|]. intros He Ha Hm.
+  assert (He' : exposed_of t m = true).
+  { destruct t; destruct m; try exact He; try discriminate He; reflexivity. }
+  exact (dispatch_executes (y_srv y) (p_id p) m a newid o t Hg He' Ha Hm).
+Qed.
+
+
 (* ========================================= any clients whatsoever: server-side robustness *)
 Definition creq_ok (r : creq) : Prop :=
   match r with CReq _ _ _ newid _ => newid <> 0 | CMalformed _ => True end.
@@ -814,23 +835,41 @@ Theorem exposed_tie : forall m,
     is_fallback m = smem (mname m) G_manager.fallback_names.
 Proof. destruct m; vm_compute; auto. Qed.
 
-Lemma offered_is_exposed t m : t <> TIter -> offered t m = exposed_of t m.
-Proof. intros H. destruct t; try reflexivity. congruence. Qed.
+(* every method a proxy class offers is exposed by the server (true since the repair of
+   IteratorProxy._exposed_; with the old typo exposed_iter was empty and this failed) *)
+Lemma offered_is_exposed t m : offered t m = exposed_of t m.
+Proof. destruct t; destruct m; reflexivity. Qed.
 
-(* C20 is FALSE for the Iterator typeid: IteratorProxy offers __next__ but the server exposes
-   nothing, so next(proxy) is answered with a traceback where the local iterator yields 4 *)
+Theorem iterator_offered_tie :
+  smem "__next__" G_manager.proxy_methods_iter = true /\
+  smem "__next__" G_manager.exposed_iter = true /\
+  forall m, offered TIter m = smem (mname m) G_manager.exposed_iter.
+Proof. split; [reflexivity|split; [reflexivity|]]. destruct m; reflexivity. Qed.
+
+(* next() through an iterator proxy = next() on the local iterator: the next element and the
+   iterator advanced, or StopIteration and nothing changed *)
+Theorem iterator_next_like_local s id l newid :
+  dget (objs s) id = Some (SlotE (OIter l) TIter) ->
+  dispatch s id M_next [] newid =
+  match l with
+  | [] => (R_error E_StopIteration, s)
+  | x :: r => (R_return (VInt x), set_obj s id (OIter r) TIter)
+  end.
+Proof.
+  intros Hg. unfold dispatch. rewrite Hg. cbn [exposed_of has_attr andb m2t_of].
+  unfold apply_ref. cbn [apply_local iter_apply]. destruct l; reflexivity.
+Qed.
+
+(* the old witness of the refuted statement, now behaving as stated *)
 Definition iter_witness : list cev := [K_create TIter [AL [4; 5]] 1; K_proxy 7 1 true; K_release 0].
 
-Theorem iterator_next_refuted :
+Theorem iterator_witness_now_holds :
   Forall ev_ok iter_witness /\
   let y := fst (crun init_sys iter_witness) in
   y_proxies y = [mk_proxy 7 1 true] /\
   dget (objs (y_srv y)) 1 = Some (SlotE (OIter [4; 5]) TIter) /\
-  offered TIter M_next = true /\
-  apply_local (OIter [4; 5]) TIter M_next [] = LRet (VInt 4) (OIter [5]) /\
-  fst (dispatch (y_srv y) 1 M_next [] 9) = R_traceback E_Key /\
-  smem "__next__" G_manager.proxy_methods_iter = true /\
-  G_manager.exposed_iter = [].
+  fst (dispatch (y_srv y) 1 M_next [] 9) = R_return (VInt 4) /\
+  dget (objs (snd (dispatch (y_srv y) 1 M_next [] 9))) 1 = Some (SlotE (OIter [5]) TIter).
 Proof.
   split.
   - repeat constructor; discriminate.
